@@ -155,3 +155,7 @@ func J(v interface{}) string {
 
 // Registry of scenarios.
 var Registry = map[string]func(*Ctx){}
+
+type rngT = rand.Rand
+
+func newRng(seed int64) *rand.Rand { return rand.New(rand.NewSource(seed)) }
